@@ -10,7 +10,6 @@ use anstream::adapter::WinconBytes;
 use rayon::prelude::*;
 use serde_json::json;
 use std::sync::atomic::{AtomicU64, Ordering};
-use vchecks::common::*;
 use vchecks::wincon_sys::*;
 use vexplore::bfs::{self, Limits};
 use vexplore::evidence::*;
